@@ -12,7 +12,8 @@ META = {
                    "units of the coefficient. BASIS: in the eff_noise/ising branch the r↔g relabelling must cover "
                    "every row and column touching levels 0/1 unless a guard pins dim to 2; XY operators are "
                    "untouched; shapes are validated against (dim, dim). DISPATCH: unknown types raise, "
-                   "hyperfine dephasing is refused.",
+                   "hyperfine dephasing is refused. "
+                   "BASIS-rate: effective-noise rates and operators are paired one-to-one (zip of eff_noise_rates with one tensor per eff_noise_opers entry; only a filter on the zipped pairs that drops zero rates is accepted).",
     "not_decided": "that Pulser's own operators are the intended physics; numerical values of the rates",
     "trusted_base": ["CPython ast", "sa.interp", "the divisor/entry tables in sa/rules/noise.py (from Pulser's "
                      "documentation of the channels)"],
